@@ -131,7 +131,13 @@ def bfs(ctx, factory_name, params, max_depth, max_states=None, ops_chunk=12, rec
     pool = Pool()
     stats = {'states': 0, 'transitions': 0, 'completed_depth': 0, 'fixpoint': False, 'distinct_obs': set(), 'rechecked': 0}
     try:
-        init = list(pool.imap(initial_task, [(factory_name, params)]))[0]
+        init = list(pool.imap(initial_task, [(factory_name, params)]))
+        if not init:
+            # the run's deadline had already passed (an earlier part of the check used it up): nothing explored here
+            ctx.incomplete('deadline reached before the exploration of %s could start' % factory_name)
+            stats['distinct_obs'] = 0
+            return stats
+        init = init[0]
         if '__crash__' in init:
             ctx.add_violation(Violation('crash', init['__crash__'], init['stderr'], {'history': [], 'params': params}))
             return stats
